@@ -47,10 +47,17 @@ impl Visitor<Diagnostic> for RuleDeclSubrangeLimits {
     type Value = ();
 
     fn visit_subrange(&mut self, node: &Subrange) -> Result<(), Diagnostic> {
-        let minimum: i128 = node.start.clone().try_into().expect("Value in range i128");
-        let maximum: i128 = node.end.clone().try_into().expect("Value in range i128");
+        // Order by sign and then magnitude because the magnitude (u128) does not
+        // necessarily fit into a signed integer type.
+        let key = |v: &SignedInteger| {
+            if v.is_neg && v.value.value != 0 {
+                (0, u128::MAX - v.value.value)
+            } else {
+                (1, v.value.value)
+            }
+        };
 
-        if minimum >= maximum {
+        if key(&node.start) >= key(&node.end) {
             self.diagnostics.push(
                 Diagnostic::problem(
                     Problem::SubrangeMinStrictlyLessMax,
